@@ -195,7 +195,9 @@ def run_all(ctx, cfgbin, work, thorough):
                       {"kind": "config-vector", **m}, dev=dev)
 
     # 5a. self-test: corrupted expectations must be noticed by the harness
-    corrupted = corrupt_vectors(g.prints)
+    # (self-tests only run after a clean validation: on a broken tree the violations above are the result, and a
+    # self-test must never turn exit 1 into exit 2)
+    corrupted = corrupt_vectors(g.prints) if not ctx.violations else []
     if corrupted:
         cs = summary_of(run_bin(cfgbin, ["replay", work, "2"], stdin_data="".join(json.dumps(x) + "\n" for x in corrupted)), "self-test")
         bad_cases = {m["case"] for m in cs["first"]}
@@ -243,7 +245,7 @@ def run_all(ctx, cfgbin, work, thorough):
         ctx.sample({"random_fault": ex["ast"]["fault"], "observed": ex["obs"]["kind"], "line": ex["obs"]["line"], "token_at": ex["tok"]})
 
     # 5b. self-test: a corrupted log record must be rejected by TLC
-    bad = corrupt_records(recs[:200])
+    bad = corrupt_records(recs[:200]) if not ctx.violations else []
     if bad:
         vlib.write_lines(tr, bad)
         t = run_tlc("Trace_Config.tla", "Trace_Config.cfg", D, workers=1, env={"TRACE": tr}, timeout=TO, work_id="c15st", deque=True)
